@@ -56,3 +56,13 @@ Definition run_pydantic (fields:list (string * annot)) (vals:list (string*value)
 (* validate_assignment=True: the validator of the assigned field runs against the context kept in the
    instance's __dict__ since construction *)
 Definition assign_field (c:ctx) (name:string) (a:annot) (x:tensor) : dres ctx := validate_field c name a x.
+
+(* __get_pydantic_core_schema__ at class definition: for a numpy array type that names its scalar types
+   (npt.NDArray[np.float32], npt.NDArray[np.int32 | np.int64]; a bare np.ndarray / NDArray[Any] names none) the tensor class
+   refuses, with the dtype error, as soon as one of them is not in its DTYPES:
+   `self.DTYPES and any(dtype not in self.DTYPES for dtype in dtypes)` *)
+Definition class_def_refused (dtypes:list dtok) (scalars:list adtype) : bool :=
+  match dtypes with
+  | [] => false
+  | _ => existsb (fun d => negb (existsb (dtype_eq LNumpy d) dtypes)) scalars
+  end.
